@@ -237,13 +237,22 @@ def parquet_rows(b: bytes) -> List[int]:
 META_RE = __import__("re").compile(r"^v(\d+)(?:-[0-9a-f]{8})?\.metadata\.json$")
 
 
+def _json_section(b: bytes, key: str) -> List[Any]:
+    """The section a legacy JSON manifest list / manifest consists of: present and a list, or the bytes do not parse."""
+    sec = dict(json.loads(b.decode("utf-8")))[key]
+    if not isinstance(sec, list):
+        raise ValueError(f"section {key!r} is not a list")
+    return sec
+
+
 def read_list_any(b: bytes) -> List[str]:
     """Manifest paths of a manifest list in either format (Avro container, or the legacy JSON object)."""
     try:
         return [r["manifest_path"] for r in avro_records(b)]
     except Exception:
-        # the legacy JSON layout; an object without the key lists nothing (decided in DESIGN.md C14: `{}` parses)
-        return [r["manifest_path"] for r in dict(json.loads(b.decode("utf-8"))).get("manifests", [])]
+        # the legacy JSON layout: the object IS its `manifests` section (a list); without it the bytes are not a manifest list
+        # (library repair 319eef4: `{}` no longer parses as an empty list)
+        return [r["manifest_path"] for r in _json_section(b, "manifests")]
 
 
 def read_manifest_any(b: bytes) -> List[Tuple[str, Optional[str]]]:
@@ -256,7 +265,7 @@ def read_manifest_full(b: bytes) -> List[Tuple[str, int, Optional[str]]]:
     try:
         return [(r["data_file"]["file_path"], r["data_file"]["record_count"], r["data_file"].get("checksum")) for r in avro_records(b)]
     except Exception:
-        return [(r["file_path"], r["record_count"], r.get("checksum")) for r in dict(json.loads(b.decode("utf-8"))).get("files", [])]
+        return [(r["file_path"], r["record_count"], r.get("checksum")) for r in _json_section(b, "files")]
 
 
 class Inventory:
@@ -714,9 +723,8 @@ def classify(kind: str, b: bytes) -> Any:
                 out.append(r["manifest_path"])
             res = ("ok", out)
         elif kind == "json_list":
-            d = json.loads(b.decode("utf-8"))
             out = []
-            for r in d.get("manifests", []):
+            for r in _json_section(b, "manifests"):
                 for k in LIST_REQ:
                     r[k]
                 if r["content"] not in (0, 1):
@@ -735,9 +743,8 @@ def classify(kind: str, b: bytes) -> Any:
                 out.append((df["file_path"], df["record_count"], df.get("checksum")))
             res = ("ok", out)
         elif kind == "json_man":
-            d = json.loads(b.decode("utf-8"))
             out = []
-            for df in d.get("files", []):
+            for df in _json_section(b, "files"):
                 for k in FILE_REQ_JSON:
                     df[k]
                 if df["file_format"] not in ("parquet", "avro", "orc"):
